@@ -28,6 +28,8 @@ structure DS where
   bterm : BTerm := ⟨Term.fresh 1 1 0 (fun _ _ => TCell.blank), Sgr.dflt, .ground⟩
   /-- the bytes written by the last operation -/
   bytes : Text := []
+  /-- the module-level memo tables `_16_fg_colors` / `_16_bg_colors` of the process -/
+  cmemo : ColorMemo := ColorMemo.empty
   /-- sessions whose style transformation is a real object graph: the hashes seen so far (the position in this list
       is the `tk` key of the renderer model), and what the leaf objects compute: `(leaf, attrs in) ↦ attrs out` -/
   trMode : Bool := false
@@ -199,8 +201,9 @@ def encCaches (ac : Option ACache) (hc : Option HCache) : String :=
 /-- execute the calls on the abstract terminal; encode them as `Vt100_Output` does and let the byte-level
     interpreter read the result -/
 def DS.run (d : DS) (cs : List Cmd) : DS :=
-  let em := vtEmitAll d.vst cs
-  { d with term := exec d.cw d.term cs, vst := em.1, bterm := interp d.cw d.bterm em.2, bytes := em.2 }
+  let em := vtEmitAllM d.vst d.cmemo cs
+  { d with term := exec d.cw d.term cs, vst := em.1, cmemo := em.2.1, bterm := interp d.cw d.bterm em.2.2,
+           bytes := em.2.2 }
 
 def encPState : PState → String
   | .ground => "g"
